@@ -48,4 +48,12 @@ def Spec.listFib (s : Spec) : List (Name × Hops) := s.nh.filter fun q => !q.2.i
 /-- strategy listing -/
 def Spec.listStrat (s : Spec) : List (Name × Name) := s.st
 
+
+/-- `ReplaceNextHops [(n₁, hops₁), …]`: for each listed prefix in turn, forget its next hops and
+    add the listed ones (a face listed twice keeps the later cost) — see `spec_replace_exact`:
+    afterwards the prefix holds exactly the listed next hops, every other prefix is untouched. -/
+def Spec.call (s : Spec) : Call → Spec
+  | .op o => s.apply o
+  | .replace us => replaceWith Spec.apply s us
+
 end Ndn.C05
